@@ -253,7 +253,8 @@ Proof.
     + intros g c Hg. exfalso. destruct (att_res s t a I ET _ _ Hg) as (_ & _ & A). rewrite EPC in A. auto.
     + intros g c Hg. exfalso. pose proof (att_tear s t a I ET _ _ Hg) as T. cbn in T. rewrite EPC in T. tauto.
   - (* PPush *)
-    destruct (wclosed s); inv H; core.
+    destruct (wclosed s); [destruct (o_jl (a_opts a))|]; inv H; core.
+    + thread_end a EPC.
     + thread_end a EPC.
     + thread_only a EPC.
   - (* PJoin *)
